@@ -39,9 +39,12 @@
    with a `location.end += 1`).
 
    Arithmetic is modelled as the machine does it in a RELEASE build (wrapping
-   u128 / u32 / u8); [spanic] / [would_overflow_panic] record that an
-   overflow-checked (debug) build would have panicked at the unchecked
-   `value += u128::from(digit)` of the decimal arm. *)
+   u128 / u32 / u8).  The model follows the CURRENT code, in which the decimal arm
+   checks both the multiplication and the addition ([dec_push]).  The accumulation
+   of the PINNED commit (unchecked `value += u128::from(digit)`, defect D4) is kept
+   as [dec_push_pinned] / [lex_delta_pinned]; there [spanic] /
+   [would_overflow_panic_pinned] record that an overflow-checked (debug) build
+   panics.  For the current code [would_overflow_panic] is constant false. *)
 From Coq Require Import Ascii String.
 From PV Require Import Base.Common Base.IR Base.Tok.
 Open Scope N_scope.
@@ -218,24 +221,41 @@ Definition lex_ident (x : N) (r : list N) (i : N) : step :=
 (* decimal accumulator: value, has_overflowed, "debug build panicked" *)
 Record dacc := { dval : N; dov : bool; dpanic : bool }.
 
-(* value = match value.checked_mul(10) { Some(v) => v, None => { has_overflowed = true; 0 } };
-   value += u128::from(digit);            <-- UNCHECKED add (wraps in release) *)
+(* CURRENT code (commit 81d8d87, "check the addition when accumulating a decimal literal"):
+     value = match value.checked_mul(10) { Some(v) => v, None => { has_overflowed = true; 0 } };
+     value = match value.checked_add(u128::from(digit)) { Some(v) => v, None => { has_overflowed = true; 0 } };
+   nothing can overflow any more; [dpanic] is carried along unchanged (always false) *)
 Definition dec_push (a : dacc) (d : N) : dacc :=
+  let m := dval a * 10 in
+  let ov1 := two128 <=? m in
+  let v1 := if ov1 then 0 else m in
+  let s := v1 + d in
+  let ov2 := two128 <=? s in
+  {| dval := if ov2 then 0 else s; dov := dov a || ov1 || ov2; dpanic := dpanic a |}.
+
+(* PINNED code (before the repair, defect D4):
+     value = match value.checked_mul(10) { .. as above .. };
+     value += u128::from(digit);            <-- UNCHECKED add: wraps in release, panics in debug *)
+Definition dec_push_pinned (a : dacc) (d : N) : dacc :=
   let m := dval a * 10 in
   let ov := two128 <=? m in
   let v1 := if ov then 0 else m in
   let s := v1 + d in
   {| dval := s mod two128; dov := dov a || ov; dpanic := dpanic a || (two128 <=? s) |}.
 
-Fixpoint scan_dec (a : dacc) (e : N) (l : list N) : dacc * N * list N :=
+(* Every definition that depends on the accumulation step takes it as the parameter
+   [push] ([.._with]); the plain names below instantiate it with the CURRENT [dec_push],
+   the [.._pinned] names with [dec_push_pinned]. *)
+Fixpoint scan_dec_with (push : dacc -> N -> dacc) (a : dacc) (e : N) (l : list N) : dacc * N * list N :=
   match l with
   | [] => (a, e, [])
   | y :: r =>
       match dec_digit y with
-      | Some d => scan_dec (dec_push a d) (e + 1) r
-      | None => if y =? 95 then scan_dec a (e + 1) r else (a, e, l)
+      | Some d => scan_dec_with push (push a d) (e + 1) r
+      | None => if y =? 95 then scan_dec_with push a (e + 1) r else (a, e, l)
       end
   end.
+Definition scan_dec := scan_dec_with dec_push.
 
 Definition suffixed (v : N) (sfx : list N) (i e2 : N) : action :=
   match parse_integer_suffix sfx with
@@ -243,9 +263,9 @@ Definition suffixed (v : N) (sfx : list N) (i e2 : N) : action :=
   | None => AErr E141 i e2
   end.
 
-Definition lex_decimal (x : N) (r : list N) (i : N) : step :=
+Definition lex_decimal_with (push : dacc -> N -> dacc) (x : N) (r : list N) (i : N) : step :=
   let a0 := {| dval := N.land x 15; dov := false; dpanic := false |} in
-  let '(a, e1, r1) := scan_dec a0 (i + 1) r in
+  let '(a, e1, r1) := scan_dec_with push a0 (i + 1) r in
   let '(sfx, r2) := span_while is_ident_cont r1 in
   let e2 := e1 + lenN sfx in
   let a' :=
@@ -255,6 +275,7 @@ Definition lex_decimal (x : N) (r : list N) (i : N) : step :=
          | _ :: _ => suffixed (dval a) sfx i e2
          end in
   {| act := a'; srest := r2; send := e2; spanic := dpanic a |}.
+Definition lex_decimal := lex_decimal_with dec_push.
 
 (* hex accumulator: value, contains_digits, has_overflowed.
    value = checked_mul(16) or (overflow, 0); value |= digit *)
@@ -440,7 +461,7 @@ Definition lex_literal (fuel : nat) (is_char : bool) (q : N) (r : list N) (i : N
   end.
 
 (* ---- one iteration of the main loop -------------------------------------- *)
-Definition lex_step (fuel : nat) (x : N) (r : list N) (i : N) : step :=
+Definition lex_step_with (push : dacc -> N -> dacc) (fuel : nat) (x : N) (r : list N) (i : N) : step :=
   let e := i + 1 in
   if (x =? 32) || (x =? 9) || (x =? 13) then mk_step ASkip r e
   else if x =? 10 then mk_step ANewline r e
@@ -467,11 +488,13 @@ Definition lex_step (fuel : nat) (x : N) (r : list N) (i : N) : step :=
     | None =>
         if is_ident_start x then lex_ident x r i
         else if x =? 48 then lex_zero r i
-        else if in_range 49 57 x then lex_decimal x r i
+        else if in_range 49 57 x then lex_decimal_with push x r i
         else if x =? 39 (* single quote *) then lex_literal fuel true 39 r i
         else if x =? 34 (* double quote *) then lex_literal fuel false 34 r i
         else mk_step (AErr E110 i e) r e
     end.
+
+Definition lex_step := lex_step_with dec_push.
 
 (* ---- the main loop with the token buffer --------------------------------- *)
 Definition has_payload (k : tkind) : bool :=
@@ -504,7 +527,7 @@ Definition lr_panic (p0 : bool) (r : loop_result) : loop_result :=
 (* [ntok] = buffer.num_tokens, [npay] = integer_payloads.len() (starts at 1),
    [nerr] = errors.len(); [cap] = tokens.len() of the spare-capacity slices,
    [errcap] = errors.capacity() *)
-Fixpoint lex_loop (fuel : nat) (rest : list N) (pos ln sol : N)
+Fixpoint lex_loop_with (push : dacc -> N -> dacc) (fuel : nat) (rest : list N) (pos ln sol : N)
          (ntok npay nerr cap errcap : N) : loop_result :=
   match fuel with
   | O => OutOfFuel
@@ -514,28 +537,30 @@ Fixpoint lex_loop (fuel : nat) (rest : list N) (pos ln sol : N)
           (* push_end_of_source: two pushes at indices ntok and ntok + 1 *)
           if cap <=? ntok + 1 then AllocFail false else Done [] ln sol false
       | x :: r =>
-          let s := lex_step f x r pos in
+          let s := lex_step_with push f x r pos in
           lr_panic (spanic s)
             match act s with
             | AFuel => OutOfFuel
-            | ASkip => lex_loop f (srest s) (send s) ln sol ntok npay nerr cap errcap
-            | ANewline => lex_loop f (srest s) (send s) (ln + 1) (pos + 1) ntok npay nerr cap errcap
+            | ASkip => lex_loop_with push f (srest s) (send s) ln sol ntok npay nerr cap errcap
+            | ANewline => lex_loop_with push f (srest s) (send s) (ln + 1) (pos + 1) ntok npay nerr cap errcap
             | ATok k v ty en =>
                 if (has_payload k && (MAX_NUM_PAYLOADS <=? npay)) || (cap <=? ntok)
                 then AllocFail false
                 else lr_cons (mk_tok k v ty pos en ln sol)
-                       (lex_loop f (srest s) (send s) ln sol (ntok + 1)
+                       (lex_loop_with push f (srest s) (send s) ln sol (ntok + 1)
                           (if has_payload k then npay + 1 else npay) nerr cap errcap)
             | AErr c st en =>
                 if errcap <=? nerr
                 then (* ignored: NO token is pushed at all *)
-                  lex_loop f (srest s) (send s) ln sol ntok npay nerr cap errcap
+                  lex_loop_with push f (srest s) (send s) ln sol ntok npay nerr cap errcap
                 else if cap <=? ntok then AllocFail false
                 else lr_cons (mk_tok KError c None st en ln sol)
-                       (lex_loop f (srest s) (send s) ln sol (ntok + 1) npay (nerr + 1) cap errcap)
+                       (lex_loop_with push f (srest s) (send s) ln sol (ntok + 1) npay (nerr + 1) cap errcap)
             end
       end
   end.
+
+Definition lex_loop := lex_loop_with dec_push.
 
 (* ---- lex ----------------------------------------------------------------- *)
 (* Tokens::empty_with_one_error: one Error token at location 0..0, line 0 *)
@@ -548,14 +573,14 @@ Inductive lex_outcome :=
 | LexTooLong               (* E102 *)
 | LexRun (r : loop_result).
 
-Definition lex_result (src : list N) : lex_outcome :=
+Definition lex_result_with (push : dacc -> N -> dacc) (src : list N) : lex_outcome :=
   let len := lenN src in
   if len =? 0 then LexEmpty
   else if MAX_SOURCE_LEN <? len then LexTooLong
-  else LexRun (lex_loop (S (length src)) src 0 1 0 0 1 0 (token_capacity len) (error_capacity len)).
+  else LexRun (lex_loop_with push (S (length src)) src 0 1 0 0 1 0 (token_capacity len) (error_capacity len)).
 
-Definition lex_delta (src : list N) : list tok :=
-  match lex_result src with
+Definition lex_delta_with (push : dacc -> N -> dacc) (src : list N) : list tok :=
+  match lex_result_with push src with
   | LexEmpty => [err_tok0 E101]
   | LexTooLong => [err_tok0 E102]
   | LexRun OutOfFuel => [out_of_fuel_tok]
@@ -564,24 +589,38 @@ Definition lex_delta (src : list N) : list tok :=
   end.
 
 (* how many EndOfSource tokens follow the tokens of [lex_delta] in the buffer *)
-Definition num_end_tokens (src : list N) : N :=
-  match lex_result src with
+Definition num_end_tokens_with (push : dacc -> N -> dacc) (src : list N) : N :=
+  match lex_result_with push src with
   | LexRun (Done _ _ _ _) => 2
   | _ => 0
   end.
 
 (* location of the EndOfSource tokens: (start = end, line_number, line_offset) *)
-Definition end_location (src : list N) : option (N * N * N) :=
-  match lex_result src with
+Definition end_location_with (push : dacc -> N -> dacc) (src : list N) : option (N * N * N) :=
+  match lex_result_with push src with
   | LexRun (Done _ ln sol _) => Some (lenN src, ln, lenN src - sol)
   | _ => None
   end.
 
 (* an overflow-checked build panics ("attempt to add with overflow") on [src];
    an unchecked build silently produces the wrapped value modelled above *)
-Definition would_overflow_panic (src : list N) : bool :=
-  match lex_result src with
+Definition would_overflow_panic_with (push : dacc -> N -> dacc) (src : list N) : bool :=
+  match lex_result_with push src with
   | LexRun (AllocFail p) => p
   | LexRun (Done _ _ _ p) => p
   | _ => false
   end.
+
+(* ---- the CURRENT lexer ----------------------------------------------------- *)
+Definition lex_result := lex_result_with dec_push.
+Definition lex_delta : list N -> list tok := lex_delta_with dec_push.
+Definition num_end_tokens : list N -> N := num_end_tokens_with dec_push.
+Definition end_location : list N -> option (N * N * N) := end_location_with dec_push.
+(* kept for API compatibility: since the repair no arithmetic of the lexer can overflow,
+   this is provably constant false (LexDeltaProofs.would_overflow_panic_never) *)
+Definition would_overflow_panic : list N -> bool := would_overflow_panic_with dec_push.
+
+(* ---- the PINNED lexer (unchecked add in the decimal arm), kept for the refutation
+   lemmas and for regression tests against the old binary ---------------------- *)
+Definition lex_delta_pinned : list N -> list tok := lex_delta_with dec_push_pinned.
+Definition would_overflow_panic_pinned : list N -> bool := would_overflow_panic_with dec_push_pinned.
